@@ -47,6 +47,13 @@ Theorem C17_foreign_child_only : forall names w x,
 Proof. exact cii_crash. Qed.
 Print Assumptions C17_foreign_child_only.
 
+(** Totality inside the property's quantifier: when the new child and all existing
+    children are names of the rule, an index is always returned. *)
+Theorem C17_total : forall names w x,
+  In x names -> (forall c, In c w -> In c names) -> exists k, child_insert_index names w x = Idx k.
+Proof. exact cii_total. Qed.
+Print Assumptions C17_total.
+
 (** Whenever some insertion position makes the child sequence valid, the suggested one does. *)
 Theorem C17_restores : forall mixed top x w i,
   insert_ok_top top = true ->
